@@ -178,6 +178,9 @@ func (r *Run) newIter(g *G, v Value, x *ssa.Range) *rangeIter {
 			if len(g.stack) > 0 && g.top().fn.Pkg != nil {
 				pp := g.top().fn.Pkg.Pkg.Path()
 				permute = (strings.HasPrefix(pp, modulePath) && !strings.HasSuffix(pp, "/verifrt")) || strings.HasPrefix(g.top().fn.Name(), "walk")
+				if permute && strings.Contains(r.curPos(g), "zz_vh_") {
+					permute = false // the harness' own loops
+				}
 			}
 			if n := len(it.order); r.permuteMaps > 0 && n >= 2 && n <= r.permuteMaps && n <= 3 && permute {
 				perms := permTable[n]
